@@ -20,7 +20,7 @@ EXPLANATION = ("differential symbolic execution: the real interpreter (EvalFunc.
                "values are solver variables; CPython runs the same sources as ordinary modules; every context's global table and every recorded read must agree")
 BOUNDS = {"quick": "2 script contexts + module m + package pk/sub; 4 import forms; 3 symbolic operations (file a, file b, file a again) out of 11, each followed by a full read-back; "
                    "1 operation run from a created task; symbolic int values",
-          "thorough": "4 symbolic operations, all import-form pairs"}
+          "thorough": "5 import-form pairs x 11 first operations x both decorator subsystems, 3 symbolic operations"}
 OUTSIDE = ("circular imports; `import pk.sub` without `as`; pyscript.set_global_ctx / get_global_ctx (Jupyter only; no CPython counterpart); more files than the bound; "
            "module reload (C10)")
 ASSUMPTIONS = ["stub Home Assistant + harness scheduler; in-memory file universe with POSIX semantics", "CPython reference: own __import__ over the same file universe (modules cached by name)",
@@ -376,7 +376,7 @@ OPNAMES = ["own_global=v", "m.setx(v)", "m.add(v)", "m.boom(v) raises", "m.call_
 def obligations(tier):
     o = []
     pairs = [(0, 2), (3, 1)] if tier == "quick" else [(0, 2), (3, 1), (1, 3), (2, 0), (1, 1)]
-    nops = 3 if tier == "quick" else 4
+    nops = 3
     for legacy in ((False,) if tier == "quick" else (False, True)):
         for (fa, fb) in pairs:
             for o1 in range(11):
